@@ -140,7 +140,8 @@ def _admission(ctx):
     accepts = [n for n in pgraph.nodes if n.kind == 'return' and not (
         n.ast.value is None or (isinstance(n.ast.value, ast.Constant) and
                                 not n.ast.value.value))]
-    ctx.require(accepts, 'accepting return of check_app_constraints')
+    ctx.require(accepts, 'accepting return of check_app_constraints',
+        rule='C03.1')
 
     def label_atom(atom):
         key = atom.key
@@ -252,7 +253,8 @@ def _admission(ctx):
                    'lifetime test compared with valid_until: %s' %
                    N.txt(resolved), construct='granted expiry in %s' %
                    func.name)
-    ctx.require(grants >= 2, 'expiry grants in Server (found %d)' % grants)
+    ctx.require(grants >= 2, 'expiry grants in Server (found %d)' % grants,
+        rule='C03.1')
     return nz, server, put
 
 
@@ -288,7 +290,8 @@ def _bypass(ctx, nz, server):
                'the lease is neutralised / re-instated only by %s' %
                restore.qualname)
     allowed = {'Cell._find_placements', 'Loader.restore_placement'}
-    ctx.require(len(callers) >= 3, 'callers of Server.%s' % restore.name)
+    ctx.require(len(callers) >= 3, 'callers of Server.%s' % restore.name,
+        rule='C03.2')
     for func, sub in callers:
         ok = func.qualname in allowed
         detail = 'lease-bypassing restore called from %s' % func.qualname
@@ -327,7 +330,7 @@ def _not_up(ctx, nz):
     graph = ctx.cfg(bput)
     sites = K.nodes_calling(graph, lambda c: K.is_meth(c, 'put') and
                             K.recv_text(c) not in ('self',))
-    ctx.require(sites, 'child.put(app) in Bucket.put')
+    ctx.require(sites, 'child.put(app) in Bucket.put', rule='C03.3')
     for node, call in sites:
         rcv = K.recv_text(call)
         head = None
@@ -347,7 +350,8 @@ def _not_up(ctx, nz):
         graph, lambda c: K.is_meth(c, 'put') and c.args and
         N.txt(c.args[0]) == loop.var and K.recv_text(c) != 'self')
         if n in body]
-    ctx.require(sites, 'direct put on a victim server in the placement loop')
+    ctx.require(sites, 'direct put on a victim server in the placement loop',
+        rule='C03.3')
     for node, call in sites:
         rcv = {K.recv_text(call), K.rtxt(loop.func, K.recv(call))}
         inner = K.enclosing_for(graph, node)
@@ -382,7 +386,7 @@ def _revalidation(ctx, nz):
     func, call = cands[0]
     graph = ctx.cfg(func)
     loops = [n for n in graph.nodes if n.kind == 'for']
-    ctx.require(loops, 'loop of %s' % func.qualname)
+    ctx.require(loops, 'loop of %s' % func.qualname, rule='C03.4')
     head = loops[0]
     var = sorted(N.for_targets(head))[0]
 
@@ -435,7 +439,7 @@ def _revalidation(ctx, nz):
     anodes = [n for n, c in K.nodes_calling(
         sgraph, lambda c: K.is_meth(c, 'schedule_alloc'))]
     ctx.require(vnodes and anodes, 'validation and schedule_alloc calls in '
-                                   'Cell.schedule')
+                                   'Cell.schedule', rule='C03.4')
     for node in anodes:
         ok = K.guarded_by(sgraph, node, lambda e: e.src in vnodes)
         ctx.ob('C03.4', sched, node, ok,
@@ -468,7 +472,7 @@ def _renewal(ctx, nz, server, loop):
     stores = [n for n in graph.nodes if any(
         N.txt(t) == '%s.placement_expiry' % app
         for t, _v, _k in K.assigns_attr(n))]
-    ctx.require(stores, 'expiry store in Server.renew')
+    ctx.require(stores, 'expiry store in Server.renew', rule='C03.5')
 
     for node in stores:
         ctx.ob('C03.5', renew, node,
@@ -505,7 +509,7 @@ def _renewal(ctx, nz, server, loop):
     var = loop.var
     fails = [n for n in graph.nodes if n.kind == 'test' and any(
         K.is_meth(c, 'renew') for c in K.test_calls(loop.func, n))]
-    ctx.require(fails, 'renewal test in the placement loop')
+    ctx.require(fails, 'renewal test in the placement loop', rule='C03.5')
     for test in fails:
         false_edges = [e for e in test.succ if e.kind == 'false']
         for edge in false_edges:
@@ -514,7 +518,8 @@ def _renewal(ctx, nz, server, loop):
                 loop.removes(c) for c in C.node_calls(n))]
             removes = [n for n in removes if K.guarded_by(
                 graph, n, lambda e, ed=edge: e is ed, start=loop.head)]
-            ctx.require(removes, 'removal after a failed renewal')
+            ctx.require(removes, 'removal after a failed renewal',
+                rule='C03.5')
             for rnode in removes:
                 # what the removal is performed on (the renewing server)
                 rcall = [c for c in C.node_calls(rnode)
@@ -571,7 +576,8 @@ def _unknown_traits(ctx):
             if isinstance(sub, ast.Call) and \
                     dotted_text(sub.func) == 'traits.encode':
                 sites.append((func, sub))
-    ctx.require(len(sites) >= 3, 'traits.encode call sites in the loader')
+    ctx.require(len(sites) >= 3, 'traits.encode call sites in the loader',
+        rule='C03.6')
     for func, call in sites:
         use_inv = K.kwarg(call, 'use_invalid')
         add_new = K.kwarg(call, 'add_new')
@@ -590,7 +596,8 @@ def _unknown_traits(ctx):
     enc = tr.functions.get('encode')
     cc = tr.functions.get('create_code')
     ctx.require(enc is not None and cc is not None, 'traits.encode/'
-                                                    'create_code')
+                                                    'create_code',
+                                                        rule='C03.6')
     nz = N.Normaliser()
     graph = ctx.cfg(enc)
     ors = [n for n in graph.nodes if n.kind == 'stmt' and
